@@ -210,6 +210,35 @@ theorem stream_special_id_is_error (qid id hdr : Nat) (q : Option Question) (qs 
 example : exchange false 4711 (some ⟨"mail.victim.test.".toList, 1, 1⟩)
     [⟨false, 0, [⟨"mail.victim.test.".toList, 1, 1⟩], 0⟩] = (XRes.errId, 1) := by decide
 
+/-- **DoH: the reply's ID is the query's or the RFC 8484 zero, nothing else**,
+also when the query's own ID is 0; and the question guard applies unless the
+caller switched it off. -/
+theorem doh_accepts_only_matching (qid : Nat) (q : Option Question) (skip : Bool) (c : Cand) (i : Nat)
+    (h : dohExchange qid q skip c = XRes.ok i) :
+    c.bad = false ∧ (c.id = qid ∨ c.id = 0) ∧
+      (∀ qq, q = some qq → skip = false → questionMatches qq c.qs = true) := by
+  unfold dohExchange at h
+  by_cases hb : c.bad = true
+  · simp [hb] at h
+  · have hb' : c.bad = false := by simpa using hb
+    simp only [hb', Bool.false_eq_true, if_false] at h
+    by_cases hid : c.id ≠ qid ∧ c.id ≠ 0
+    · simp [hid] at h
+    · simp only [hid, if_false] at h
+      refine ⟨hb', by omega, ?_⟩
+      intro qq hq hs
+      subst hq hs
+      simp only [Bool.false_or] at h
+      by_cases hm : questionMatches qq c.qs = true
+      · exact hm
+      · simp [hm] at h
+
+-- a query with ID 0 gets no free pass: 0xBEEF is refused, 0 is accepted
+example : dohExchange 0 (some ⟨"q.test.".toList, 1, 1⟩) false ⟨false, 48879, [⟨"q.test.".toList, 1, 1⟩], 0⟩
+    = XRes.errId := by decide
+example : dohExchange 4711 (some ⟨"q.test.".toList, 1, 1⟩) false ⟨false, 0, [⟨"Q.test.".toList, 1, 1⟩], 0⟩
+    = XRes.ok 0 := by decide
+
 -- non-vacuity: two stray datagrams (wrong id; right id comes third, case differs) — the third is returned
 example : exchange true 7 (some ⟨"www.victim.test.".toList, 1, 1⟩)
     [⟨false, 8, [⟨"www.victim.test.".toList, 1, 1⟩], 0⟩, ⟨false, 6, [], 0⟩,
@@ -630,6 +659,26 @@ theorem no_out_of_zone_record_relayed (zone : Str) (hz : zone ≠ []) (answer : 
     r ∈ answer ∧ LabelSuffix (labelsOf zone) (labelsOf r.owner) :=
   (answer_kept_iff_in_zone zone hz answer r).mp h
 
+/-- **A DNAME answer is the filtered upstream section plus the target's own
+resolution**: every record of the composed answer is an upstream record owned
+inside the asked zone, or a record of the response the target's own servers
+gave (`shape_dname_target_resolved_separately` pins that the spliced message
+is the result of `internalExchange` and never built from the same message). -/
+theorem dname_answer_provenance (zone : Str) (hz : zone ≠ []) (upstream target : List AnsRR) (r : AnsRR)
+    (h : r ∈ composeDnameAnswer (fun x => nameInZone (lower x.owner) (lower zone)) upstream target) :
+    (r ∈ upstream ∧ LabelSuffix (labelsOf zone) (labelsOf r.owner)) ∨ r ∈ target := by
+  unfold composeDnameAnswer at h
+  rcases List.mem_append.mp h with h | h
+  · exact Or.inl ((answer_kept_iff_in_zone zone hz upstream r).mp h)
+  · exact Or.inr h
+
+-- the seeded shape of C07-17: the forged target record in the DNAME's own message does not survive
+example : composeDnameAnswer (fun x : AnsRR => nameInZone (lower x.owner) (lower "evil.test.".toList))
+    [⟨"dn.evil.test.".toList, 39, 0⟩, ⟨"www.dn.evil.test.".toList, 5, 0⟩, ⟨"www.victim.test.".toList, 1, 0⟩]
+    [⟨"www.victim.test.".toList, 1, 7⟩]
+    = [⟨"dn.evil.test.".toList, 39, 0⟩, ⟨"www.dn.evil.test.".toList, 5, 0⟩, ⟨"www.victim.test.".toList, 1, 7⟩] := by
+  decide
+
 /-- What is relayed is a subsequence of what the upstream sent (nothing is invented or reordered). -/
 theorem relayed_is_sublist (zone : Str) (answer : List AnsRR) :
     (relayedFromUpstream zone answer).Sublist answer := List.filter_sublist
@@ -841,7 +890,8 @@ theorem guards_are_wired :
     SdnsVerif.Gen.C07.shape_store_filters_before_entry = true ∧
     SdnsVerif.Gen.C07.shape_answer_filters_before_splice = true ∧
     SdnsVerif.Gen.C07.shape_level_is_zone_depth = true ∧
-    SdnsVerif.Gen.C07.shape_nsaddr_lookups_use_searchAddrs = true := by decide
+    SdnsVerif.Gen.C07.shape_nsaddr_lookups_use_searchAddrs = true ∧
+    SdnsVerif.Gen.C07.shape_dname_target_resolved_separately = true := by decide
 
 /-- The compiled `usableAddr` rejects every loopback probe (127.0.0.1 in both
 spellings, the ends of 127/8, ::1) and every address of every local interface,
